@@ -95,6 +95,19 @@ def run_c12(ctx, replay=None):
             scripts.append({"id": len(scripts), "cfg": {"mode": "join"}, "steps": steps})
         if not scripts:
             raise vf.Infra("no scripts generated")
+        # model-independent two-step sequences: a refused variant of an invitation (type substituted, signature
+        # damaged, foreign signer) is presented first - the driver also asks the secret store which identity it
+        # would use for that group object - and the untouched invitation right after it through the same joiner:
+        # nothing the refused attempt left behind (keyed by the identifier alone) may change how the node acts
+        # in the group it then joins
+        for via in ("store", "service"):
+            for g, sec in (("g1", "s1"), ("g2", "s2")):
+                good = {"pk": g, "secret": sec, "sig": {"by": g, "over": sec, "st": "ok"}, "type": "multi"}
+                bads = [dict(good, type=t) for t in ("contact", "account", "undefined", "unknown")]
+                bads += [dict(good, sig={"by": g, "over": sec, "st": "flip"}), dict(good, sig={"by": "sign1", "over": sec, "st": "ok"})]
+                for bad in bads:
+                    scripts.append({"id": len(scripts), "cfg": {"mode": "join", "blind": True},
+                                    "steps": [{"act": "join", "s": via, "a": bad}, {"act": "join", "s": via, "a": good}]})
         for via in ("store", "service"):
             for _ in range(1 if quick else 3):
                 scripts.append({"id": len(scripts), "cfg": {"mode": "flips", "via": via}, "steps": []})
